@@ -181,7 +181,7 @@ func verifyChild() {
 }
 
 func isExpectedClass(cls string) bool {
-	for _, p := range []string{"C07/flush-protocol-window/", "C07/half-initialised-queue-meta-page/", "C07/entry-counted-twice/data-flush-started-between-writerows-and-commitsequence"} {
+	for _, p := range []string{"C07/late-write-refused-after-log-garbage-collection/", "C07/flush-protocol-window/", "C07/half-initialised-queue-meta-page/", "C07/entry-counted-twice/data-flush-started-between-writerows-and-commitsequence"} {
 		if strings.HasPrefix(cls, p) {
 			return true
 		}
@@ -243,7 +243,7 @@ func parent() {
 	for i := 0; i < nFree; i++ {
 		jobs = append(jobs, histJob{1000 + i, "free"})
 	}
-	for i := 0; i < 2; i++ { // deterministic minimal reproductions of the genuine findings
+	for i := 0; i < 3; i++ { // deterministic minimal reproductions of the genuine findings
 		jobs = append(jobs, histJob{directedBase + i, "step"})
 	}
 	scratch := c.Scratch()
